@@ -15,6 +15,7 @@ func init() {
 
 func checkC01(c *Ctx) {
 	l := c.L
+	checkWorkingIterationMerges(c, "DOM-working-iteration")
 	checkSnapshotFlags(c, "FLOW-snapshot-flags")
 	checkBatchSiblings(c, "SIB-batch-wrapper")
 	checkNoDirectStoreWrites(c, "OWN-store-writes")
